@@ -207,9 +207,9 @@ def round_tt(tt_cores,R,eps,Rmax,is_ttm=False):
         
         U, S, V = SVD(core_now)
         if S.is_cuda:
-            r_now = min([Rmax[i],rank_chop(S.cpu().numpy(),tn.linalg.norm(S).cpu().numpy()*eps)])
+            r_now = min([Rmax[i],rank_chop(S.cpu().numpy(),snorm(S).cpu().numpy()*eps)])
         else:
-            r_now = min([Rmax[i],rank_chop(S.numpy(),tn.linalg.norm(S).numpy()*eps)])
+            r_now = min([Rmax[i],rank_chop(S.numpy(),snorm(S).numpy()*eps)])
     
         U = U[:,:r_now]
         S = S[:r_now]
@@ -286,6 +286,28 @@ def mat_to_tt(A,M,N,eps,rmax = 1000,is_sparse=False):
 
     return cores, R
 
+def snorm(s):
+    """
+    Euclidean norm of a vector of singular values, computed relative to the largest one
+    (tn.linalg.norm squares the entries: for very small / very large values the squares underflow / overflow).
+
+    Parameters
+    ----------
+    s : torch tensor
+        Vector of singular values.
+
+    Returns
+    -------
+    torch tensor
+        The norm.
+    """
+    if s.numel() == 0:
+        return tn.linalg.norm(s)
+    smax = tn.max(tn.abs(s))
+    if smax == 0 or not tn.isfinite(smax):
+        return tn.linalg.norm(s)
+    return tn.linalg.norm(s/smax)*smax
+
 def rank_chop(s,eps):
     """
     Chop the rank.
@@ -302,12 +324,17 @@ def rank_chop(s,eps):
     R : int
         Rank.
     """
-    if np.linalg.norm(s) == 0.0:
+    if np.max(np.abs(s)) == 0.0:
         return 1
     
     if eps <= 0.0:
         return s.size
     
+    # relative to the largest singular value: the squares of very small / very large values would underflow / overflow
+    smax = np.max(np.abs(s))
+    s = s / smax
+    eps = eps / smax
+
     R = s.size - 1
    
     sc = np.cumsum(np.abs(s[::-1])**2)[::-1]
@@ -382,7 +409,7 @@ def to_tt(A,N=None,eps=1e-14,rmax=100,is_sparse=False):
       
         # tme = datetime.datetime.now()
         # choose the rank according to eps tolerance
-        r1 = rank_chop(s.cpu().numpy(), ep*tn.linalg.norm(s).cpu().numpy())
+        r1 = rank_chop(s.cpu().numpy(), ep*snorm(s).cpu().numpy())
         r1 = min([r1,rmax[i+1]])
         
         u = u[:,:r1]
